@@ -11,6 +11,9 @@ IsPrefix(s, t) == Len(s) <= Len(t) /\ \A i \in 1..Len(s) : s[i] = t[i]
 Verdict(c) ==
   LET n == Cardinality({i \in 1..Len(c.outcomes) : c.outcomes[i][1] = "RemoteError"}) IN
   IF ~IsPrefix(Cat(c.outcomes, 1), c.sent) THEN "C07.channel-file-returned-data-that-was-not-sent"
+  \* (the calls end with read(50), readline(), read(50), read(50): whatever was sent before the failure has come out by then, also
+  \*  the pieces a read() had already collected when the failure reached it)
+  ELSE IF Cat(c.outcomes, 1) # c.sent THEN "C07.items-sent-before-the-failure-never-came-out-of-the-channel-file"
   ELSE IF n = 0 THEN "C07.remote-failure-never-surfaced-through-the-channel-file-or-its-channel"
   ELSE IF n > 1 THEN "C07.remote-failure-surfaced-more-than-once"
   ELSE "ok"
